@@ -2,12 +2,16 @@ SPECIFICATION Spec
 CONSTANTS
   Slice = "grants"
   Big = FALSE
+  MaxEdits = 0
 INVARIANT Inv_ScanIsFirstApplicable
 INVARIANT Inv_UnprotectedGranted
 INVARIANT Inv_NoGrantNoProtectedAccess
 INVARIANT Inv_OnlyDeclaredAmbiguity
 INVARIANT Inv_OnlyValidOwnGrantCounts
 INVARIANT Inv_AcceptedOnlyAsSigned
+INVARIANT Inv_ForgedContentNeverAdmissible
+INVARIANT Inv_UnsignedFieldsHaveNoSay
+INVARIANT Inv_ChainAcceptsOnlyAdmissible
 INVARIANT TablePrinted
 ACTION_CONSTRAINT GenEdge
 CHECK_DEADLOCK FALSE
